@@ -120,6 +120,9 @@ type world struct {
 	drawn      chan int
 	cmdSeq     int
 	cmdDone    int
+	// rfAt: the frame count at each moment a focus-in handler returned a
+	// RedrawCmd ("rf" widgets)
+	rfAt []int
 }
 
 type (
@@ -215,6 +218,13 @@ func (t *tw) handle(ev vaxis.Event, phase string) (vxfw.Command, error) {
 	t.wd.mu.Unlock()
 	if t.consumes(name, phase) {
 		return vxfw.ConsumeEventCmd{}, nil
+	}
+	if name == "focus-in" && strings.Contains(t.n.Consume, "rf") {
+		// a widget that repaints itself when it gets the focus
+		t.wd.mu.Lock()
+		t.wd.rfAt = append(t.wd.rfAt, t.wd.draws)
+		t.wd.mu.Unlock()
+		return vxfw.RedrawCmd{}, nil
 	}
 	if id, ok := focusOn(t.n, name, phase); ok {
 		t.wd.mu.Lock()
@@ -758,6 +768,27 @@ func runHistory(w *harness.W, c hcase, sample bool) {
 			}
 			w.Count("frames_after_redraw", 1)
 		}
+		// a RedrawCmd returned by a focus-in handler takes effect: a frame
+		// is drawn after it, also when the handler ran inside a frame (the
+		// focus falling back to the root)
+		rfFramed := false
+		for round := 0; round < 6; round++ {
+			e.wd.mu.Lock()
+			rfAt := e.wd.rfAt
+			e.wd.rfAt = nil
+			e.wd.mu.Unlock()
+			if len(rfAt) == 0 {
+				break
+			}
+			rfFramed = true
+			last := rfAt[len(rfAt)-1]
+			if !e.waitFrame(last) {
+				fail("redraw:no-frame-after-focus-handler", fmt.Sprintf("a focus-in handler returned RedrawCmd when %d frames had been drawn; no further frame followed within 20s", last), i, nil, "a frame")
+				quit()
+				return
+			}
+			w.Count("redraw_commands_from_focus_handlers", int64(len(rfAt)))
+		}
 		got := e.takeLog()
 		w.Count("ops", 1)
 		w.Count("deliveries_logged", int64(len(got)))
@@ -851,7 +882,7 @@ func runHistory(w *harness.W, c hcase, sample bool) {
 				}
 			}
 		}
-		if o.Kind == "relayout" || needFrame {
+		if o.Kind == "relayout" || needFrame || rfFramed {
 			// after a frame the focus falls back to the root when the
 			// focused widget is no longer drawn
 			if !m.inTree(m.focused) {
@@ -921,7 +952,7 @@ func genTree(r gen.R, cols, rows int, overlap bool) node {
 	id := 0
 	pol := func() string {
 		var p []string
-		for _, x := range []string{"kc", "kt", "kb", "mc", "mt", "mb", "he", "hl"} {
+		for _, x := range []string{"kc", "kt", "kb", "mc", "mt", "mb", "he", "hl", "rf"} {
 			if r.Intn(7) == 0 {
 				p = append(p, x)
 			}
